@@ -512,3 +512,94 @@ Proof.
     + destruct Hc.
     + exfalso. apply Ht; auto. apply mu_lt_fuel. subst fs. cbn [length]. lia.
 Qed.
+
+(* ---------- fuel-free statements ----------
+   The two loops of applyFilters are also described without any fuel, as the big-step relations
+   generated by the loop bodies; the fuelled functions compute exactly these relations, every
+   sufficient fuel gives the same answer, and on well-formed filters the relations are total. *)
+
+Definition opt_list (e : option nat) : list nat := match e with Some v => [v] | None => [] end.
+
+(* while (true) { body }  — src: Trie.cpp:applyFilters *)
+Inductive loop_runs : astate -> list nat -> Prop :=
+| LoopBreak : forall st e, body st = Break e -> loop_runs st (opt_list e)
+| LoopStep : forall st st' e m, body st = Continue st' e -> loop_runs st' m -> loop_runs st (opt_list e ++ m).
+
+(* while (filters[0].isValid()) { push getMin; stepAdvance } *)
+Inductive drain_runs : filter -> list nat -> Prop :=
+| DrainStop : forall f, f_valid f = false -> drain_runs f []
+| DrainStep : forall f m f' l, f_valid f = true -> f_min f = Some m -> f_step f = Some f' -> drain_runs f' l -> drain_runs f (m :: l).
+
+Lemma acons_opt : forall e m, acons e (ADone m) = ADone (opt_list e ++ m).
+Proof. intros [v|] m; reflexivity. Qed.
+
+Lemma apply_loop_runs : forall fuel st m, apply_loop fuel st = ADone m -> loop_runs st m.
+Proof.
+  induction fuel as [|k IH]; intros st m H; cbn [apply_loop] in H; [discriminate|].
+  destruct (body st) as [st' e|e|] eqn:Eb; [| |discriminate].
+  - destruct (apply_loop k st') as [m'| |] eqn:E; try (destruct e; discriminate).
+    rewrite acons_opt in H. inversion H; subst. eapply LoopStep; eauto.
+  - rewrite acons_opt in H. inversion H; subst. rewrite app_nil_r. apply LoopBreak; auto.
+Qed.
+
+Lemma runs_apply_loop : forall st m, loop_runs st m -> exists fuel, forall fuel', fuel <= fuel' -> apply_loop fuel' st = ADone m.
+Proof.
+  intros st m H. induction H as [st e Hb|st st' e m Hb Hr [fuel IH]].
+  - exists 1. intros [|k] Hk; [lia|]. cbn [apply_loop]. rewrite Hb, acons_opt, app_nil_r. reflexivity.
+  - exists (S fuel). intros [|k] Hk; [lia|]. cbn [apply_loop]. rewrite Hb, IH by lia. apply acons_opt.
+Qed.
+
+Lemma loop_runs_det : forall st m1 m2, loop_runs st m1 -> loop_runs st m2 -> m1 = m2.
+Proof.
+  intros st m1 m2 H1. revert m2. induction H1 as [st e Hb|st st' e m Hb Hr IH]; intros m2 H2; inversion H2; subst; try congruence.
+  - rewrite Hb in H. inversion H; subst. f_equal. apply IH. auto.
+Qed.
+
+(* the answer does not depend on the fuel *)
+Lemma apply_loop_fuel_irrelevant : forall fuel1 fuel2 st m1 m2,
+  apply_loop fuel1 st = ADone m1 -> apply_loop fuel2 st = ADone m2 -> m1 = m2.
+Proof. intros. eapply loop_runs_det; eapply apply_loop_runs; eauto. Qed.
+
+Lemma drain_runs_iff : forall fuel f l, drain fuel f = ADone l -> drain_runs f l.
+Proof.
+  induction fuel as [|k IH]; intros f l H; cbn [drain] in H; [discriminate|].
+  destruct (f_valid f) eqn:Ev.
+  - destruct (f_min f) as [m|] eqn:Em; [|discriminate]. destruct (f_step f) as [f'|] eqn:Es; [|discriminate].
+    destruct (drain k f') as [l'| |] eqn:E; try discriminate. cbn [acons] in H. inversion H; subst.
+    eapply DrainStep; eauto.
+  - inversion H; subst. apply DrainStop; auto.
+Qed.
+
+(* applyFilters, fuel-free: on well-formed non-empty filters the loop relation is total and its
+   (unique) result is the strictly increasing intersection *)
+Theorem loop_total_correct : forall fs m0, 2 <= length fs -> Forall fwf fs -> Forall (fun f => f_valid f = true) fs ->
+  f_min (hd ([], []) fs) = Some m0 ->
+  exists m, loop_runs (fs, 1, 0, m0) m /\ ssorted m /\ (forall x, In x m <-> inall fs x) /\
+            forall fuel, apply_fuel fs <= fuel -> apply_loop fuel (fs, 1, 0, m0) = ADone m.
+Proof.
+  intros fs m0 Hlen Hwf Hval Hm. destruct fs as [|f0 rest]; [cbn in Hlen; lia|]. cbn [hd] in Hm.
+  assert (Hinv : ainv (f0 :: rest, 1, 0, m0)).
+  { apply ainv_intro; auto; cbn [length] in *; try lia. apply pinned_one. apply f_min_spec; auto. inversion Hwf; auto. }
+  pose proof (apply_loop_correct (apply_fuel (f0 :: rest)) _ Hinv) as Hc.
+  pose proof (apply_loop_terminates (apply_fuel (f0 :: rest)) _ Hinv) as Ht.
+  destruct (apply_loop (apply_fuel (f0 :: rest)) (f0 :: rest, 1, 0, m0)) as [m| |] eqn:E.
+  - exists m. destruct Hc as (Hs & _ & Hin). split; [eapply apply_loop_runs; eauto|]. split; auto. split; auto.
+    intros fuel Hf. pose proof (apply_loop_terminates fuel _ Hinv) as Ht'.
+    pose proof (apply_loop_correct fuel _ Hinv) as Hc'.
+    destruct (apply_loop fuel (f0 :: rest, 1, 0, m0)) as [m'| |] eqn:E'.
+    + f_equal. eapply apply_loop_fuel_irrelevant; eauto.
+    + destruct Hc'.
+    + exfalso. apply Ht'; auto. pose proof (mu_lt_fuel (f0 :: rest) 1 0 m0). cbn [length] in *. lia.
+  - destruct Hc.
+  - exfalso. apply Ht; auto. apply mu_lt_fuel. cbn [length] in *. lia.
+Qed.
+
+Theorem drain_total_correct : forall f, fwf f ->
+  exists m, drain_runs f m /\ ssorted m /\ (forall x, In x m <-> In x (content f)) /\
+            forall fuel, f_size f < fuel -> drain fuel f = ADone m.
+Proof.
+  intros f Hw. destruct (drain_spec (S (f_size f)) f Hw) as [m [E [Hs Hm]]]; [lia|].
+  exists m. split; [eapply drain_runs_iff; eauto|]. split; auto. split; auto.
+  intros fuel Hf. destruct (drain_spec fuel f Hw Hf) as [m' [E' [Hs' Hm']]]. rewrite E'. f_equal.
+  apply ssorted_ext; auto. intros x. rewrite Hm, Hm'. tauto.
+Qed.
